@@ -9,6 +9,8 @@ import (
 	"math/rand"
 	"os"
 	"runtime"
+	"sort"
+	"strings"
 	"sync"
 	"time"
 
@@ -55,6 +57,39 @@ func catalogue() []concOp {
 			}
 			return c
 		}})
+	}
+	// every small readable document converted by every writer (real texts: accents, entities, styling), plus
+	// synthetic documents over character classes (precomposed and decomposed accents, non-BMP, markup characters)
+	conv := append([]doc{}, docs...)
+	for i, t := range []string{"caf\u00e9 na\u00efve \u00fcber se\u00f1or \u010desk\u00fd \u00e5ngstr\u00f6m", "e\u0301 a\u0308 plain ascii", "\u00c6\u00e6\u00d8\u00f8 \u00a3 \u00a7 <b>bold \u00e9</b> & \u201cquotes\u201d", "\U0001F600 \u4e2d\u6587 \u00e9\u00e8\u00ea"} {
+		var b bytes.Buffer
+		for k := 0; k < 3; k++ {
+			fmt.Fprintf(&b, "%d\n00:00:%02d,000 --> 00:00:%02d,500\n%s %d\nsecond \u00e0 line\n\n", k+1, 2*k+1, 2*k+2, t, k)
+		}
+		conv = append(conv, doc{Name: fmt.Sprintf("texts%d.srt", i), Fmt: "srt", Data: b.Bytes()})
+	}
+	for _, d := range conv {
+		d := d
+		if len(d.Data) > 4000 {
+			continue
+		}
+		if _, err := readDoc(d.Fmt, bytes.NewReader(d.Data)); err != nil {
+			continue
+		}
+		for _, f := range writeFormats {
+			f := f
+			label := "write-" + f + ":from-" + d.Name
+			ops = append(ops, concOp{label, func() concCall {
+				s, _ := readDoc(d.Fmt, bytes.NewReader(d.Data))
+				return concCall{label: label, run: func() string {
+					var b bytes.Buffer
+					if err := writeDoc(f, s, &b); err != nil {
+						return "ERR"
+					}
+					return dig(b.Bytes())
+				}}
+			}})
+		}
 	}
 	rr := rand.New(rand.NewSource(7))
 	for i, wc := range []wCase{
@@ -283,14 +318,38 @@ func cmdConc(args []string) error {
 			}
 		}
 	}
-	// free-running: 2..32 goroutines, randomised start order, GOMAXPROCS in {2,4,16}
-	for k := 0; k < *free; k++ {
+	// free-running: 2..32 goroutines, randomised start order, GOMAXPROCS in {2,4,16}.  The first scenarios are
+	// homogeneous - one kind of operation (a reader, a writer, the transformations) on distinct private
+	// documents - so that state shared inside one code path meets itself; the rest are random mixes.
+	kinds := map[string][]concOp{}
+	var kindNames []string
+	for _, op := range ops {
+		k := op.label
+		if i := strings.Index(k, ":"); i >= 0 {
+			k = k[:i]
+		}
+		if _, ok := kinds[k]; !ok {
+			kindNames = append(kindNames, k)
+		}
+		kinds[k] = append(kinds[k], op)
+	}
+	sort.Strings(kindNames)
+	homog := 0
+	if *free > 0 {
+		homog = len(kindNames)
+	}
+	for k := 0; k < *free+homog; k++ {
 		procs := []int{2, 4, 16}[k%3]
 		old := runtime.GOMAXPROCS(procs)
 		gor := 2 + r.Intn(31)
+		pool := ops
+		if k < homog {
+			pool = kinds[kindNames[k]]
+			gor = 12
+		}
 		calls := make([]concCall, gor)
 		for i := range calls {
-			calls[i] = ops[r.Intn(len(ops))].mk()
+			calls[i] = pool[r.Intn(len(pool))].mk()
 		}
 		order := r.Perm(gor)
 		fpb := astisub.VerifTablesFingerprint()
